@@ -402,7 +402,8 @@ def _ensure_object_loader(context: Optional['LoadSaveContext'], saved_state: SAV
         # 3) Fall back to default
         loader = default_loader
     else:
-        loader = default_loader.load_object(loader_identifier)
+        # what was recorded is the class of the loader
+        loader = default_loader.load_object(loader_identifier)()
 
     return context.copyextend(loader=loader)
 
@@ -564,7 +565,7 @@ class Savable:
     @staticmethod
     def get_custom_meta(saved_state: SAVED_STATE_TYPE, name: str) -> Any:
         try:
-            return saved_state[META][name]
+            return saved_state[META][META__USER][name]
         except KeyError:
             raise ValueError(f"Unknown meta key '{name}'")
 
